@@ -308,6 +308,13 @@ def translate_categories(repo, notes):
         notes.append('unrecognised utils/operator_category.rs: derive/enum header')
         return None
     body, _ = block_after(src, m.start())
+    # the file must consist of exactly this one definition: a second (cfg-selected) copy of the enum, or a cfg on the
+    # enum itself, would change the order under some feature sets without being seen here
+    bare = re.sub(r'//[^\n]*', '', src)
+    if len(re.findall(r'\benum\s+OperatorCategory\b', bare)) != 1 or \
+            re.sub(r'\s+', '', bare.replace(body, '', 1)) != '#[derive(Debug,PartialEq,PartialOrd,Clone)]pubenumOperatorCategory{}':
+        notes.append('unrecognised utils/operator_category.rs: more than the one enum definition')
+        return None
     cats, pend = [], None
     for ln in body.split('\n'):
         ln = ln.strip()
